@@ -7,7 +7,7 @@ WT=/tmp/sv_$ID
 export CARGO_NET_OFFLINE=true CARGO_TARGET_DIR=/tmp/sv_target
 rm -rf $WT; git -C /repo worktree prune; git -C /repo worktree add -q --detach $WT HEAD || exit 9
 cd $WT
-DEMO=$(ls $OUT/*.rs | head -1)
+DEMO=$OUT/seed_demo.rs; [ -f "$DEMO" ] || DEMO=$(ls $OUT/*.rs | head -1)
 PKG=$(grep -o "\-p [a-z-]*" $OUT/demo_cmd.txt | head -1 | cut -d' ' -f2); PKG=${PKG:-test-libz-rs-sys}
 TESTNAME=$(basename $DEMO .rs)
 res() { echo "$1" | tee -a $WT/../sv_$ID.result; }
